@@ -43,6 +43,8 @@ class MFS:
         self.fault_at = None
         self.log = []
         self.overwrites = 0
+        self.tick_writes = False  # also count every write() call on an open handle as an event
+        self.fault_exc = None
         self.clock = 1000
 
     @staticmethod
@@ -144,6 +146,8 @@ class MFS:
         self.ticks += 1
         self.log.append(what)
         if self.fault_at is not None and bool(self.fault_at == self.ticks):
+            if self.fault_exc is not None:
+                raise self.fault_exc("at fs event #%d (%s)" % (self.ticks, what))
             raise Injected(5, "injected fault at fs operation #%d (%s)" % (self.ticks, what))
 
     def _touch(self, rel):
@@ -263,6 +267,8 @@ class _WriteHandle:
         self.closed = False
 
     def write(self, data):
+        if self.fs.tick_writes:
+            self.fs.tick("write " + self.rel)
         self.parts.append(data)
         self._flush()
         return len(data)
